@@ -33,6 +33,9 @@ class Eval:
         self.inline_depth = inline_depth
         self.inline = inline  # predicate(def_path) -> bool
         self.returns = []
+        self.conds = []
+        self.names = {}
+        self.last_env = {}
 
     # ------------------------------------------------------------------ entry points
     def function(self, body, args=None, depth=0):
@@ -42,10 +45,17 @@ class Eval:
             t = args[i] if args is not None and i < len(args) else None
             self.bind_pat(p, t, env, default_param=True)
         saved = self.returns
+        saved_c = self.conds
         self.returns = []
+        self.conds = []
         v = self.expr(body["body"], env, depth)
         rets = self.returns
         self.returns = saved
+        self.conds = saved_c
+        if depth == 0:
+            self.last_env = {}
+            for i, t in env.items():
+                self.last_env.setdefault(self.names.get(i, str(i)), []).append(t)
         if rets:
             return ("returns", tuple(rets) + ((("fallthrough",), v),))
         return v
@@ -54,6 +64,7 @@ class Eval:
     def bind_pat(self, p, term, env, default_param=False, path=()):
         k = p.get("p")
         if k == "Bind":
+            self.names[p["id"]] = p["name"]
             if term is None and default_param:
                 env[p["id"]] = ("param", p["name"])
             else:
@@ -126,21 +137,17 @@ class Eval:
             if l.get("k") == "Path" and l.get("res", {}).get("r") == "local":
                 env[l["res"]["id"]] = ("bin", e["op"], env.get(l["res"]["id"]), self.expr(e["r"], env, depth))
             return
-        if k == "MethodCall" and e["method"] in MUTATORS:
-            root = self.root_local(e["recv"])
-            if root is not None and "&mut" in (e["recv"].get("ty_adj", "") + e["recv"].get("ty", "")):
-                args = tuple(self.expr(a, env, depth) for a in e["args"])
-                fp = hq.field_path(e["recv"])
-                m = e["method"] if (fp is None or "." not in fp) else "%s@%s" % (e["method"], fp.split(".", 1)[1])
-                env[root] = ("upd", env.get(root, ("unknown", "unbound")), m, args)
-                return
         if k == "If":
             c = self.expr(e["cond"], env, depth)
             e1 = dict(env)
+            self.conds.append((c, True))
             self.effect(e["then"], e1, depth)
+            self.conds.pop()
             e2 = dict(env)
             if "else" in e:
+                self.conds.append((c, False))
                 self.effect(e["else"], e2, depth)
+                self.conds.pop()
             self.merge(env, ("if", c), [("then", e1), ("else", e2)])
             return
         if k == "Match":
@@ -151,6 +158,10 @@ class Eval:
                     it = self.expr(iterable, env, depth)
                     self.bind_pat(pat, ("each", it), env)
                     if body is not None:
+                        # loop-carried locals: their value at the loop head is "initial value plus earlier iterations"
+                        for lid in self.mutated_locals(body):
+                            if lid in env and not (isinstance(env[lid], tuple) and env[lid][:1] == ("acc",)):
+                                env[lid] = ("acc", env[lid])
                         self.effect(body, env, depth)
                     return
             if str(e.get("src", "")).startswith("TryDesugar"):
@@ -161,7 +172,9 @@ class Eval:
             for a in e["arms"]:
                 ea = dict(env)
                 self.bind_pat(a["pat"], sc, ea)
+                self.conds.append((("arm", sc, hq.pat_key(a["pat"])), True))
                 self.effect(a["body"], ea, depth)
+                self.conds.pop()
                 envs.append((hq.pat_key(a["pat"]), ea))
             self.merge(env, ("match", sc), envs)
             return
@@ -177,7 +190,7 @@ class Eval:
             self.effect({"k": "Block", **e["body"]}, env, depth)
             return
         if k == "Ret":
-            self.returns.append((("ret",), self.expr(e["e"], env, depth) if "e" in e else ("unit",)))
+            self.returns.append((tuple(self.conds), self.expr(e["e"], env, depth) if "e" in e else ("unit",)))
             return
         # any other expression: evaluate for nested effects (e.g. closures are ignored)
         self.expr(e, env, depth)
@@ -196,6 +209,20 @@ class Eval:
                 env[i] = vals[0][1]
             else:
                 env[i] = ("phi", key, tuple(vals))
+
+    def mutated_locals(self, body):
+        out = []
+        for n in hq.walk(body):
+            k = n.get("k")
+            if k in ("Assign", "AssignOp"):
+                r = self.root_local(n["l"])
+                if r is not None:
+                    out.append(r)
+            elif k == "MethodCall" and n["method"] in MUTATORS and "&mut" in (n["recv"].get("ty_adj", "") + n["recv"].get("ty", "")):
+                r = self.root_local(n["recv"])
+                if r is not None:
+                    out.append(r)
+        return out
 
     def root_local(self, e):
         cur = strip(e)
@@ -300,7 +327,9 @@ class Eval:
                 g = None
                 if "guard" in a:
                     g = self.expr(a["guard"], ea, depth)
+                self.conds.append((("arm", sc, hq.pat_key(a["pat"])), True))
                 v = self.expr(a["body"], ea, depth)
+                self.conds.pop()
                 key = hq.pat_key(a["pat"])
                 arms.append((key, v) if g is None else (key, ("guard", g), v))
                 envs.append((key, ea))
@@ -309,9 +338,13 @@ class Eval:
         if k == "If":
             c = self.expr(e["cond"], env, depth)
             e1 = dict(env)
+            self.conds.append((c, True))
             t = self.expr(e["then"], e1, depth)
+            self.conds.pop()
             e2 = dict(env)
+            self.conds.append((c, False))
             f = self.expr(e["else"], e2, depth) if "else" in e else ("unit",)
+            self.conds.pop()
             self.merge(env, ("if", c), [("then", e1), ("else", e2)])
             return ("if", c, t, f)
         if k == "Let":
@@ -326,7 +359,7 @@ class Eval:
             return ("index", self.expr(e["e"], env, depth), self.expr(e["idx"], env, depth))
         if k == "Ret":
             v = self.expr(e["e"], env, depth) if "e" in e else ("unit",)
-            self.returns.append((("ret",), v))
+            self.returns.append((tuple(self.conds), v))
             return ("never",)
         if k in ("Assign", "AssignOp", "Loop"):
             self.effect(e, env, depth)
@@ -401,7 +434,11 @@ class Eval:
             return recv
         args = [recv] + [self.expr(a, env, depth) for a in e["args"]]
         if m in MUTATORS:
-            self.effect(e, env, depth)
+            root = self.root_local(e["recv"])
+            if root is not None and "&mut" in (e["recv"].get("ty_adj", "") + e["recv"].get("ty", "")):
+                fp = hq.field_path(e["recv"])
+                mm = m if (fp is None or "." not in fp) else "%s@%s" % (m, fp.split(".", 1)[1])
+                env[root] = ("upd", env.get(root, ("unknown", "unbound")), mm, tuple(args[1:]))
         return self.named_call(e, callee_generic(e), callee(e), args, depth)
 
     def conv(self, e, arg, depth):
